@@ -215,6 +215,8 @@ def require_ok(r, what):
 # ------------------------------------------------------------------------------------------ Go side
 
 GOENV = {"GOTOOLCHAIN": "local", "GOFLAGS": "-mod=mod", "GOPROXY": "off"}
+# harness/<dir> -> /repo/internal/<path> when they differ
+PKG_ALIAS = {"usermanager": "server/usermanager"}
 GOBIN = "go1.26.8"
 
 
@@ -229,7 +231,7 @@ def make_overlay(ctx, pkgdirs, prefixes=None):
         src = os.path.join(HARNESS, d)
         if not os.path.isdir(src):
             continue
-        dst = os.path.join(REPO, "internal", "verifkit" if d == "kit" else d)
+        dst = os.path.join(REPO, "internal", "verifkit" if d == "kit" else PKG_ALIAS.get(d, d))
         for f in sorted(os.listdir(src)):
             if f.endswith(".go") and (d == "kit" or f.startswith(prefixes)):
                 name = f if d == "kit" else "zzverif_" + f
@@ -264,7 +266,7 @@ def run_go(ctx, pkg, run, env=None, timeout=900, harness_dirs=None, race=False, 
         cmd.append("-race")
     if extra_args:
         cmd += extra_args
-    cmd.append("./internal/" + pkg + "/")
+    cmd.append("./internal/" + PKG_ALIAS.get(pkg, pkg) + "/")
     t0 = time.time()
     try:
         p = subprocess.run(cmd, cwd=REPO, env=e, stdout=subprocess.PIPE, stderr=subprocess.STDOUT,
